@@ -434,6 +434,8 @@ Definition restore_targets (w : world) (staged : bool) (ns : list node) (a : byt
     else
       dedup_first
         (map e_path (entries_by_dir (idx_of w) a)
+         (* the root of the snapshot is not a node: every path of HEAD lies beneath "." *)
+         ++ (if bytes_eqb a [x2e] then map e_path (flatten [] ns) else [])
          ++ match get_node ns a with
             | Some n => if is_leaf n then [] else map e_path (flatten_node (dirname a) n)
             | None => []
